@@ -31,6 +31,12 @@ func main() {
 	commands["rot"] = cmdRot
 	commands["api"] = cmdAPI
 	commands["asm"] = cmdAsm
+	commands["cli"] = cmdCLI
+	commands["cli-replay"] = cmdCLIReplay
+	commands["loadrt"] = cmdLoadRT
+	commands["rt-replay"] = cmdRTReplay
+	commands["loadcorrupt"] = cmdLoadCorrupt
+	commands["listing"] = cmdListing
 	commands["fuzz"] = cmdFuzz
 	commands["equgraphs"] = cmdEquGraphs
 	commands["fx"] = cmdFX
